@@ -197,4 +197,20 @@ CHECKS = {
              "shards": {"quick": 4, "thorough": 16}, "timeout": {"quick": 600, "thorough": 7200}},
         ],
     },
+    "C08": {
+        "rule": ("batches of 2-64 simultaneous tagged connections (arrival jitter 0-2 ms, streams straddling the 2 KiB pooled buffer, segmented or not) through ONE shared server "
+                 "configuration on Server.serve over loopback TCP: echo, deep matcher, tee, subroute with a consuming handler, shared throttle limiter, proxy with each of the six "
+                 "selection policies over a shared pool, a two-peer upstream whose peers both talk, the OpenVPN matcher in auth mode with varying digests; run at GOMAXPROCS 1, 2, 4 "
+                 "and 16, and the same workloads (<= 24 connections) under the Go race detector. Oracle: every connection gets back exactly its own stream as it would alone; any "
+                 "race report with a caddy-l4 frame is a violation. Non-trivial = >= 2 connections overlapping in time (measured); distinct = distinct batch. The listener-wrapper "
+                 "hand-over under slow consumers is exercised by C13."),
+        "assumptions": ["interleavings are sampled, not enumerated; the race detector only sees executed accesses"],
+        "min_classes": {"quick": {"C08/race-detector-run": 20, "C08/gomaxprocs/1": 10, "C08/gomaxprocs/16": 10, "C08/workload/proxy-two-peers": 20, "C08/workload/openvpn-auth-echo": 20, "C08/workload/tee-echo": 20}},
+        "runs": [
+            {"name": "crosstalk", "pkg": "./c08", "run": ".", "rapid_checks": {"quick": 40, "thorough": 3000}, "cpu": "1,2,4,16",
+             "shards": {"quick": 1, "thorough": 8}, "timeout": {"quick": 600, "thorough": 7200}},
+            {"name": "race", "pkg": "./c08", "run": ".", "race": True, "rapid_checks": {"quick": 120, "thorough": 6000},
+             "shards": {"quick": 1, "thorough": 8}, "timeout": {"quick": 900, "thorough": 7200}},
+        ],
+    },
 }
